@@ -400,6 +400,22 @@ func Report(t Failer, v *Violation, replay any) bool {
 	return true
 }
 
+// ReportWedged is Report for violations after which the server under test cannot be torn down (its event loop is blocked
+// for good): the replay and the evidence are written and the process is left at once with exit code 1, without shrinking.
+func ReportWedged(v *Violation, replay any) {
+	if v == nil || IsKnown(v.Key) {
+		return
+	}
+	E.mu.Lock()
+	E.Violations++
+	E.mu.Unlock()
+	SaveReplay(map[string]any{"property": Cfg.ID, "key": v.Key, "message": v.Msg, "case": replay})
+	fmt.Printf("\nVIOLATION-DETAIL property=%s key=%s: %s\n", Cfg.ID, v.Key, v.Msg)
+	E.Write(1)
+	os.Stdout.Sync()
+	os.Exit(1)
+}
+
 func SaveReplay(v any) {
 	if Cfg.ReplayOut == "" {
 		return
